@@ -2,6 +2,8 @@
 
 pub mod e1checks;
 pub mod unit_a;
+pub mod unit_b;
+pub mod unit_c;
 
 use crate::runner::{Check, Tier};
 
@@ -15,10 +17,12 @@ pub fn registry() -> Vec<Entry> {
     let mut v = vec![];
     v.extend(e1checks::entries());
     v.extend(unit_a::entries());
+    v.extend(unit_b::entries());
+    v.extend(unit_c::entries());
     v
 }
 
-pub fn run(id: &str, tier: Tier, replay: Option<String>) -> i32 {
+pub fn run(id: &str, tier: Tier, replay: Option<String>, shard: Option<(String, usize, usize)>) -> i32 {
     let reg = registry();
     let Some(e) = reg.iter().find(|e| e.id == id) else {
         eprintln!("unknown check {}", id);
@@ -26,6 +30,7 @@ pub fn run(id: &str, tier: Tier, replay: Option<String>) -> i32 {
     };
     let mut c = Check::new(id, tier, e.rule);
     c.replay = replay;
+    c.shard = shard;
     (e.run)(&mut c);
     c.finish()
 }
